@@ -9,7 +9,7 @@ SPEC = dict(
           "from the constructor and changed in between with separator(); options at random, before every second field "
           "only (pending-option reset probe) or not at all) installed as formatter of a LogDestStream, TZ = UTC or "
           "Europe/Zurich, and a history of global attributes, scoped attributes nested 0..4 deep with shadowing names "
-          "(ScopedAttribute and LOG_ATTRIBUTE) and message-owned LogAttributes with up to two parents; 6..25 messages "
+          "(ScopedAttribute and LOG_ATTRIBUTE; a quarter of the scopes re-define an attribute with the value that is visible anyway) and message-owned LogAttributes with up to two parents; 6..25 messages "
           "(all levels x classes; empty / one-word / multi-word / long / blank-framed text; timestamps at day, month, "
           "leap-day, year and DST boundaries, random and 'now' with a sub-second part; several file/function/line/errnbr "
           "shapes) are sent through Logging::log() at the different points of the attribute history and the text that "
